@@ -551,7 +551,14 @@ func worker(sh *ev.Shard) {
 		}
 		var out [2]*lazyproto.Decoder
 		for mi, m := range []csproto.DecoderMode{csproto.DecoderModeSafe, csproto.DecoderModeFast} {
-			dec, err := lazyproto.NewDecoder(defs[di], lazyproto.WithMode(m))
+			// the Decoder objects live for the whole run (their pooled results are recycled from message to message); every
+			// second one - alternating between the safe and the fast decoder of consecutive definitions - also carries
+			// WithMaxBufferSize(1), so that results trimmed on Close are recycled too: what is decoded never depends on it
+			opts := []lazyproto.Option{lazyproto.WithMode(m)}
+			if (di+mi)%2 == 1 {
+				opts = append(opts, lazyproto.WithMaxBufferSize(1))
+			}
+			dec, err := lazyproto.NewDecoder(defs[di], opts...)
 			if err != nil {
 				sh.Internal("NewDecoder(%s): %v", defString(defs[di]), err)
 			}
